@@ -149,6 +149,7 @@ func enumCore(ex exclusions, rec *ev.Rec, yield func(Case) bool) {
 							if b.dropped > 0 && rec != nil {
 								rec.Excluded("C06-template-root-evaluated-twice")
 							}
+							c.rename(fixedNames(variant))
 							if !yield(c) {
 								return
 							}
@@ -207,6 +208,7 @@ func enumEdge(yield func(Case) bool) {
 					none := Node{K: "inc", Comp: ci.file, Stat: []KV{{K: ci.title(), V: "T2"}},
 						Bind: []KV{{K: ci.num(), V: "pn"}, {K: ci.items(), V: "prows"}, {K: ci.rec(), V: "prec"}}}
 					c.Page = page(b, []Node{inc, none})
+					c.rename(fixedNames(variant))
 					if !yield(c) {
 						return
 					}
@@ -424,6 +426,7 @@ func genCase(t *rapid.T, ex exclusions, rec *ev.Rec) Case {
 			k[1], k[2] = k[2], k[1]
 		}
 	}
+	c.rename(genNames(t))
 	return c
 }
 
